@@ -290,7 +290,8 @@ class BinDomain:
             self.env = dict(e0)
             self.block(s.orelse)
             for k in set(e1) | set(self.env):
-                a, b = e1.get(k, NB), self.env.get(k, NB)
+                # a name bound on one arm only can be read afterwards only on executions that took that arm (NameError otherwise)
+                a, b = e1.get(k, self.env.get(k, NB)), self.env.get(k, e1.get(k, NB))
                 self.env[k] = BIN if a == BIN and b == BIN else NB
         elif isinstance(s, (ast.For, ast.While)):
             for _ in range(2):
@@ -387,6 +388,15 @@ class Endpoints:
                 return SC
             return (ANY_, ANY_) if tgt[0] != "name" else SC
         if isinstance(e, ast.Subscript):
+            sl = e.slice
+            if isinstance(sl, ast.Slice) and sl.lower is None and sl.upper is None:
+                base = self.v(e.value)
+                if sl.step is None:
+                    return base                      # x[:] keeps both end samples
+                st_ = sl.step
+                if isinstance(st_, ast.UnaryOp) and isinstance(st_.op, ast.USub) and isinstance(st_.operand, ast.Constant) and st_.operand.value == 1 \
+                        and isinstance(base, tuple) and len(base) == 2 and base != ("s", "s"):
+                    return (base[1], base[0])        # x[::-1]: the mirrored waveform starts where x ends
             return (ANY_, ANY_)
         if isinstance(e, ast.Tuple):
             return SC
